@@ -135,12 +135,14 @@ func (tl *TokenLimiter) consumeRates(req *http.Request, source string, amount in
 		bucketSet.Update(effectiveRates)
 	} else {
 		bucketSet = NewTokenBucketSet(effectiveRates)
-		// We set ttl as 10 times rate period. E.g. if rate is 100 requests/second per client ip
-		// the counters for this ip will expire after 10 seconds of inactivity
-		err := tl.bucketSets.Set(source, bucketSet, int(bucketSet.maxPeriod/clock.Second)*10+1)
-		if err != nil {
-			return err
-		}
+	}
+	// We set ttl as 10 times rate period. E.g. if rate is 100 requests/second per client ip
+	// the counters for this ip will expire after 10 seconds of inactivity.
+	// The ttl is renewed on every access: a source that stays busy must keep its buckets,
+	// otherwise it would get a fresh, full bucket set each time the entry expires.
+	err := tl.bucketSets.Set(source, bucketSet, int(bucketSet.maxPeriod/clock.Second)*10+1)
+	if err != nil {
+		return err
 	}
 	delay, err := bucketSet.Consume(amount)
 	if err != nil {
